@@ -38,6 +38,7 @@ func propC04(w *World, r *Report) {
 	RunNumberExact(w, r)
 	checkFloatRange(w, r)
 	checkStemRef(w, r)
+	checkStemOpVertical(w, r)
 }
 
 // ---- endchar
@@ -2023,6 +2024,10 @@ func checkWidthDict(w *World, r *Report) {
 						r.Fail("widthdict", key, w.Pos(mu.Pos()), op+" is not stored as passed in: "+why+"; the charstrings were encoded against the exact value that selectWidths returned, so any change here shifts every non-default width", nil)
 						continue
 					}
+					if other := foreignGuard(fn, b, mu.Value); other != "" {
+						r.FailC("widthdict", key, []string{"guard"}, w.Pos(mu.Pos()), op+" is written only under a condition that involves "+other+": where that condition fails the DICT keeps the default 0 although the charstrings were encoded against the value that selectWidths returned", nil)
+						continue
+					}
 					if k == "int<-float" || k == "int" {
 						r.Fail("widthdict", key, w.Pos(mu.Pos()), op+" is stored as "+k+": a fractional width parameter is cut off in the DICT while the charstrings were encoded against the exact value", nil)
 					} else {
@@ -2374,4 +2379,186 @@ func checkStemRef(w *World, r *Report) {
 	if n == 0 {
 		r.Fail("stemref", r.MkKey("stemref", fnName(fn), "reference edge"), w.Pos(fn.Pos()), "no encodeNumber(edge - previous) with a loop-carried previous edge found", nil)
 	}
+}
+
+// checkStemOpVertical: only the operator of the last *vertical* stem chunk
+// may be left out in front of a mask (the interpreter reads operands that
+// precede a hintmask without operator as vertical stems). The decision to
+// skip the operator must therefore imply that the chunk belongs to the
+// vertical stems: assuming the comparison "stem list index == index of VStem"
+// false, the skipping branch must be unreachable.
+func checkStemOpVertical(w *World, r *Report) {
+	r.Rule("stemopvertical: in encodeCharString the branch that skips the operator of a stem chunk cannot be taken when the comparison of the stem-list index with the position of VStem in the list of stem lists is false (evaluated over the short-circuit phis of the deciding condition, edges from blocks behind the true side of that comparison excluded): horizontal stem operands are never left without their operator")
+	fn := w.Func("(*cff.Glyph).encodeCharString")
+	if fn == nil {
+		r.Fatal("(*cff.Glyph).encodeCharString does not resolve")
+		return
+	}
+	key := r.MkKey("stemopvertical", fnName(fn), "operator of a stem chunk")
+	// position of VStem in the literal of stem lists
+	kV := int64(-1)
+	for _, b := range fn.Blocks {
+		for _, in := range b.Instrs {
+			st, ok := in.(*ssa.Store)
+			if !ok {
+				continue
+			}
+			fa, ok := st.Addr.(*ssa.FieldAddr)
+			if !ok || fieldName(fa) != "stems" {
+				continue
+			}
+			ia, ok := fa.X.(*ssa.IndexAddr)
+			if !ok {
+				continue
+			}
+			k, ok := bconstInt(ia.Index)
+			if !ok {
+				continue
+			}
+			if ld, ok := st.Val.(*ssa.UnOp); ok && ld.Op == token.MUL && fieldName(ld.X) == "VStem" {
+				kV = k
+			}
+		}
+	}
+	if kV < 0 {
+		r.Fail("stemopvertical", key, w.Pos(fn.Pos()), "the list of stem lists with its VStem entry was not found", nil)
+		return
+	}
+	isA := func(v ssa.Value) bool {
+		bo, ok := v.(*ssa.BinOp)
+		if !ok || bo.Op != token.EQL || !isIntegerType(bo.X.Type()) {
+			return false
+		}
+		k, ok := bconstInt(bo.Y)
+		return ok && k == kV
+	}
+	behindA := func(b *ssa.BasicBlock) bool {
+		for _, g := range guardsOf(b) {
+			if isA(g.cond) && g.then {
+				return true
+			}
+		}
+		return false
+	}
+	var possible func(v ssa.Value, want bool, seen map[ssa.Value]bool) bool
+	possible = func(v ssa.Value, want bool, seen map[ssa.Value]bool) bool {
+		if seen[v] {
+			return false
+		}
+		seen[v] = true
+		if c, ok := v.(*ssa.Const); ok && c.Value != nil && c.Value.Kind() == constant.Bool {
+			return constant.BoolVal(c.Value) == want
+		}
+		if isA(v) {
+			return !want
+		}
+		if u, ok := v.(*ssa.UnOp); ok && u.Op == token.NOT {
+			return possible(u.X, !want, seen)
+		}
+		if ph, ok := v.(*ssa.Phi); ok {
+			for i, e := range ph.Edges {
+				if behindA(ph.Block().Preds[i]) {
+					continue
+				}
+				if possible(e, want, seen) {
+					return true
+				}
+			}
+			return false
+		}
+		return true
+	}
+	n := 0
+	for _, b := range fn.Blocks {
+		for _, in := range b.Instrs {
+			c, ok := in.(*ssa.Call)
+			if !ok || c.Call.StaticCallee() == nil || c.Call.StaticCallee().Name() != "Bytes" {
+				continue
+			}
+			fromStem := false
+			for v := range backSlice(c) {
+				if fa, ok := v.(*ssa.FieldAddr); ok && fieldName(fa) == "op" {
+					fromStem = true
+				}
+				if f, ok := v.(*ssa.Field); ok && fieldName(f) == "op" {
+					fromStem = true
+				}
+			}
+			if !fromStem {
+				continue
+			}
+			// the deciding branch: the immediate dominator ends in an If with b as one side
+			d := b.Idom()
+			if d == nil || len(d.Instrs) == 0 {
+				continue
+			}
+			ifi, ok := d.Instrs[len(d.Instrs)-1].(*ssa.If)
+			if !ok || (d.Succs[0] != b && d.Succs[1] != b) {
+				continue
+			}
+			n++
+			skipWhen := d.Succs[1] == b // the operator is skipped when the condition is true
+			if behindA(d) {
+				r.OK("stemopvertical", key, w.Pos(c.Pos()), "decided inside the branch for the vertical stems")
+				continue
+			}
+			if possible(ifi.Cond, skipWhen, map[ssa.Value]bool{}) {
+				r.Fail("stemopvertical", key, w.Pos(ifi.Cond.Pos()), "the operator of a stem chunk can be skipped although the chunk is not shown to belong to the vertical stems (the comparison of the stem-list index with the position of VStem can be false on the way): a glyph with horizontal stems only whose first command is a mask loses its hstemhm, and the interpreter reads the operands as vertical stems", nil)
+			} else {
+				r.OK("stemopvertical", key, w.Pos(c.Pos()), "skipping implies the vertical stem list")
+			}
+		}
+	}
+	if n == 0 {
+		r.Fail("stemopvertical", key, w.Pos(fn.Pos()), "no conditional emission of a stem operator found", nil)
+	}
+}
+
+// foreignGuard: a condition the store of a width operator is control-
+// dependent on that is not a comparison of the stored parameter with a
+// constant. Returns a description, or "".
+func foreignGuard(fn *ssa.Function, b *ssa.BasicBlock, stored ssa.Value) string {
+	params := map[ssa.Value]bool{}
+	roots := []ssa.Value{stored}
+	// the elements of a slice literal are stored into its backing array
+	for v := range backSlice(stored) {
+		al, ok := v.(*ssa.Alloc)
+		if !ok || al.Referrers() == nil {
+			continue
+		}
+		for _, ref := range *al.Referrers() {
+			if ia, ok := ref.(*ssa.IndexAddr); ok && ia.Referrers() != nil {
+				for _, r2 := range *ia.Referrers() {
+					if st, ok := r2.(*ssa.Store); ok {
+						roots = append(roots, st.Val)
+					}
+				}
+			}
+		}
+	}
+	for _, root := range roots {
+		for v := range backSlice(root) {
+			if p, ok := v.(*ssa.Parameter); ok {
+				params[p] = true
+			}
+		}
+	}
+	for _, c := range controlConds(fn)[b] {
+		cmp, ok := c.(*ssa.BinOp)
+		if !ok {
+			return "a value that is not a comparison"
+		}
+		for _, op := range []ssa.Value{cmp.X, cmp.Y} {
+			switch x := op.(type) {
+			case *ssa.Const:
+			case *ssa.Parameter:
+				if !params[x] {
+					return "the parameter " + x.Name()
+				}
+			default:
+				return "another value"
+			}
+		}
+	}
+	return ""
 }
